@@ -742,7 +742,22 @@ def gen_c20(repo):
             return {'@local:files': '(%s ++ (E.walk %s).filter (fun path => decide %s))' % (env['files'], env['prefix'], test)}
         return None
 
+    UNANCHOR = 'files = [path[2:] for path in files]'
+
     class T(TrStr):
+        @staticmethod
+        def is_test(e):
+            return (isinstance(e, ast.UnaryOp) and isinstance(e.op, ast.Not)) or \
+                (isinstance(e, ast.Call) and isinstance(e.func, ast.Name) and e.func.id == 'any')
+
+        def kind(self, e, env):
+            return 'bool' if self.is_test(e) else super().kind(e, env)
+
+        def expr(self, e, env):
+            if self.is_test(e):                                   # a test stored in a local: `anchored = not any(...)`
+                return '(decide %s)' % self.cond(e, env)
+            return super().expr(e, env)
+
         def cond(self, e, env):
             src = ast.unparse(e)
             if src.startswith('os.path.isfile(') and isinstance(e, ast.Call):
@@ -752,6 +767,11 @@ def gen_c20(repo):
             return super().cond(e, env)
 
         def block(self, stmts, env, k, ind):
+            if stmts and ast.unparse(stmts[0]) == UNANCHOR and 'files' in env:
+                nm = self.fresh('files')                          # the first two characters of every name dropped
+                env2 = dict(env)
+                env2['files'] = nm
+                return 'let %s := (%s).map (fun path => path.drop 2)\n%s' % (nm, env['files'], ' ' * ind) + self.block(stmts[1:], env2, k, ind)
             if stmts:
                 upd = ext_stmt(stmts[0], self, env)
                 if upd is not None and '@local:files' in upd:
@@ -777,6 +797,141 @@ def gen_c20(repo):
            'def resolveFilenames (E : Env) (expr : Str) : List Str :=\n  %s\n' % body)
     return 'pysparkling/fileio/fs/local.py (Local.resolve_filenames)', out
 
+
+
+# ---- C02: the per-key comprehensions of the join family, the grouping loop, cartesian, subtractByKey ------------
+
+class TrComp:
+    """list comprehensions over a grouped pair `kv` and the dictionaries `d_other` / `d_self` (association lists):
+    `kv[0]`, `kv[1]`, `kv[1][0]`, `kv[1][1]`, tuples, `d[kv[0]] if kv[0] in d else [] / [None]`, `l if l else [None]`,
+    `for v in <iter>`, `if kv[0] (not) in d`. A branch paired with `[None]` holds optional values: the other branch is
+    lifted with `some`."""
+
+    def __init__(self, dicts, lists=()):
+        self.dicts, self.lists = set(dicts), set(lists)
+
+    def sub(self, e):
+        if isinstance(e, ast.Name):
+            return e.id
+        if isinstance(e, ast.Subscript) and isinstance(e.slice, ast.Constant) and e.slice.value in (0, 1) \
+                and not (isinstance(e.value, ast.Name) and e.value.id in self.dicts):
+            return '%s.%d' % (self.sub(e.value), e.slice.value + 1)
+        raise NotTranslatable('projection ' + ast.unparse(e)[:60])
+
+    def elt(self, e):
+        if isinstance(e, ast.Tuple):
+            return '()' if not e.elts else '(' + ', '.join(self.elt(x) for x in e.elts) + ')'
+        if isinstance(e, ast.Constant) and e.value is None:
+            return 'none'
+        return self.sub(e)
+
+    def test(self, e):
+        if isinstance(e, ast.Compare) and len(e.ops) == 1 and isinstance(e.ops[0], (ast.In, ast.NotIn)) \
+                and isinstance(e.comparators[0], ast.Name) and e.comparators[0].id in self.dicts:
+            t = '(%s.lookup %s).isSome' % (e.comparators[0].id, self.sub(e.left))
+            return t if isinstance(e.ops[0], ast.In) else '!' + t
+        if isinstance(e, ast.UnaryOp) and isinstance(e.op, ast.Not):
+            return '!(%s)' % self.test(e.operand)
+        if isinstance(e, ast.BoolOp) and isinstance(e.op, ast.And):
+            return '(' + ' && '.join(self.test(v) for v in e.values) + ')'
+        return '!(%s).isEmpty' % self.sub(e)                      # truth value of a list
+
+    def lst(self, e, lift=False):
+        """an iterable as a Lean list; `lift`: its elements become `some _`"""
+        if isinstance(e, ast.IfExp):
+            other = e.orelse
+            if isinstance(other, ast.List) and not other.elts:
+                return '(if %s then %s else [])' % (self.test(e.test), self.lst(e.body, lift))
+            if isinstance(other, ast.List) and len(other.elts) == 1 and isinstance(other.elts[0], ast.Constant) and other.elts[0].value is None:
+                return '(if %s then %s else [none])' % (self.test(e.test), self.lst(e.body, True))
+            raise NotTranslatable('conditional iterable ' + ast.unparse(e)[:60])
+        if isinstance(e, ast.Subscript) and isinstance(e.value, ast.Name) and e.value.id in self.dicts:
+            base = '((%s.lookup %s).getD [])' % (e.value.id, self.sub(e.slice))         # guarded by `k in d`
+        else:
+            base = self.sub(e)
+        return '(%s.map some)' % base if lift else base
+
+    def comp(self, e):
+        if not isinstance(e, (ast.ListComp, ast.GeneratorExp)):
+            raise NotTranslatable('not a comprehension')
+
+        def go(gens):
+            g = gens[0]
+            if not isinstance(g.target, ast.Name):
+                raise NotTranslatable('comprehension target')
+            inner = go(gens[1:]) if gens[1:] else None
+            it = self.lst(g.iter)
+            cond = ' && '.join(self.test(c) for c in g.ifs)
+            if inner is None and not cond:
+                return '(%s).map fun %s => %s' % (it, g.target.id, self.elt(e.elt))
+            body = inner if inner is not None else '[%s]' % self.elt(e.elt)
+            if cond:
+                body = 'if %s then %s else []' % (cond, body)
+            return '(%s).flatMap fun %s => %s' % (it, g.target.id, body)
+        return go(list(e.generators))
+
+
+def gen_c02(repo):
+    rdd = find_class(parse(repo, 'pysparkling/rdd.py'), 'RDD')
+
+    def the_lambda_comp(fname, attr='flatMap'):
+        fn = find_def(rdd, fname)
+        found = [n for n in ast.walk(fn) if isinstance(n, ast.Call) and isinstance(n.func, ast.Attribute) and n.func.attr == attr
+                 and len(n.args) == 1 and isinstance(n.args[0], ast.Lambda)]
+        if len(found) != 1:
+            raise NotTranslatable('%s: %d %s(lambda ...)' % (fname, len(found), attr))
+        lam = found[0].args[0]
+        return fn, [a.arg for a in lam.args.args], lam.body
+
+    out = 'variable {κ ν ω α β : Type} [DecidableEq κ]\n\n'
+    sigs = {
+        'join': ('joinPerKey', 'd_other', '(d_other : List (κ × List ω)) (kv : κ × List ν) : List (κ × (ν × ω))'),
+        'leftOuterJoin': ('leftOuterPerKey', 'd_other', '(d_other : List (κ × List ω)) (kv : κ × List ν) : List (κ × (ν × Option ω))'),
+        'rightOuterJoin': ('rightOuterPerKey', 'd_self', '(d_self : List (κ × List ν)) (kv : κ × List ω) : List (κ × (Option ν × ω))'),
+        'fullOuterJoin': ('fullOuterPerKey', None, '(kv : κ × (List ν × List ω)) : List (κ × (Option ν × Option ω))'),
+        '_leftSemiJoin': ('semiPerKey', 'd_other', '(d_other : List (κ × List ω)) (kv : κ × List ν) : List (κ × (ν × Unit))'),
+        '_leftAntiJoin': ('antiPerKey', 'd_other', '(d_other : List (κ × List ω)) (kv : κ × List ν) : List (κ × (ν × Option Unit))'),
+    }
+    for fname, (lean, d, sig) in sigs.items():
+        fn, params, body = the_lambda_comp(fname)
+        if params != ['kv']:
+            raise NotTranslatable('%s: lambda parameters %s' % (fname, params))
+        if d is not None:
+            # the dictionary is the grouped other side: `d = X.groupByKey().collectAsMap()`
+            want = '%s = %s.groupByKey().collectAsMap()' % (d, 'other' if d == 'd_other' else 'self')
+            if want not in [ast.unparse(s) for s in fn.body]:
+                raise NotTranslatable('%s: %s is not the grouped other side' % (fname, d))
+        tr = TrComp([d] if d else [])
+        out += '/-- the list `RDD.%s` builds for one grouped key (`flatMap(lambda kv: [...])`) -/\ndef %s %s :=\n  %s\n\n' % (
+            fname, lean, sig, tr.comp(body))
+    # cartesian: [(a, b) for a in v1 for b in v2]
+    fn = find_def(rdd, 'cartesian')
+    comps = [n for n in ast.walk(fn) if isinstance(n, ast.ListComp)]
+    if len(comps) != 1:
+        raise NotTranslatable('cartesian: comprehension')
+    out += '/-- `RDD.cartesian`: the list handed to `parallelize` -/\ndef cartesianList (v1 : List α) (v2 : List β) : List (α × β) :=\n  %s\n\n' % (
+        TrComp([], ['v1', 'v2']).comp(comps[0]))
+    # groupByKey: r = defaultdict(list); for key, value in <it>: r[key].append(value); ... r.items()
+    fn = find_def(rdd, 'groupByKey')
+    src = [ast.unparse(s) for s in fn.body if not (isinstance(s, ast.Expr) and isinstance(s.value, ast.Constant))]
+    loop = 'for key, value in self.toLocalIterator():\n    r[key].append(value)'
+    if 'r = defaultdict(list)' not in src or loop not in src or 'return self.context.parallelize(r.items(), numPartitions)' not in src:
+        raise NotTranslatable('groupByKey: grouping loop')
+    out += ('/-- `r[key].append(value)` on a `defaultdict(list)`: a new key is inserted at the end with `[value]` -/\n'
+            'def appendTo (r : List (κ × List ν)) (key : κ) (value : ν) : List (κ × List ν) :=\n'
+            '  if Assoc.has r key then r.map fun e => if e.1 == key then (e.1, e.2 ++ [value]) else e else r ++ [(key, [value])]\n\n'
+            '/-- the grouping loop of `RDD.groupByKey`: `r.items()` after `for key, value in it: r[key].append(value)` -/\n'
+            'def groupItems (it : List (κ × ν)) : List (κ × List ν) :=\n  it.foldl (fun r kv => appendTo r kv.1 kv.2) []\n\n')
+    # subtractByKey: filter_func and the flatMapValues projection
+    fn = find_def(rdd, 'subtractByKey')
+    src = [ast.unparse(s) for s in fn.body if not (isinstance(s, ast.Expr) and isinstance(s.value, ast.Constant))]
+    if src != ['def filter_func(pair):\n    _, (val1, val2) = pair\n    return val1 and (not val2)',
+               'return self.cogroup(other, numPartitions).filter(filter_func).flatMapValues(lambda x: x[0])']:
+        raise NotTranslatable('subtractByKey body')
+    out += ('/-- `filter_func` of `RDD.subtractByKey`: `val1 and not val2` (truth values of the two value lists) -/\n'
+            'def subtractKeep (pair : κ × (List ν × List ω)) : Bool :=\n  !(pair.2.1).isEmpty && !(!(pair.2.2).isEmpty)\n\n'
+            '/-- `flatMapValues(lambda x: x[0])` -/\ndef subtractValues (x : List ν × List ω) : List ν := x.1\n')
+    return 'pysparkling/rdd.py (join family per-key comprehensions, groupByKey loop, cartesian, subtractByKey)', out
 
 # ---- C03: what a pool task receives and sends back (clone_contains, stored_idents, get_not_in, join) --------
 
@@ -1639,4 +1794,4 @@ def gen_c05(repo):
     return 'pysparkling/cache_manager.py (CacheManager.add/get/has/delete, TimedCacheManager.add/gc), pysparkling/rdd.py (PersistedRDD.compute)', out
 
 
-GENERATORS_M = {'C11': gen_c11, 'C04': gen_c04, 'C05': gen_c05, 'C10': gen_c10, 'C09': gen_c09, 'C20': gen_c20, 'C03': gen_c03, 'C08': gen_c08, 'C12': gen_c12, 'C01': gen_c01, 'C19': gen_c19, 'C13': gen_c13, 'C15': gen_c15}
+GENERATORS_M = {'C02': gen_c02, 'C11': gen_c11, 'C04': gen_c04, 'C05': gen_c05, 'C10': gen_c10, 'C09': gen_c09, 'C20': gen_c20, 'C03': gen_c03, 'C08': gen_c08, 'C12': gen_c12, 'C01': gen_c01, 'C19': gen_c19, 'C13': gen_c13, 'C15': gen_c15}
